@@ -3,27 +3,40 @@ from vlib import Suite, zlit, zlist, coqlist, blit
 
 ID = "C03"
 READY = True
-RULE = ("timelines on a 1/8 s grid for six switches (NO, NC, NO with timed activation/deactivation events, NC starting "
-        "active, NO with ignore_window_ms=250, NC with ignore_window_ms=375) of one real machine on the virtual clock; "
-        "changes land inside, exactly at and after the window end; in 40% of the cases mute/unmute (two sources) are "
-        "interleaved, half of those start with a pending hold on a switch that is then muted and released; raw/logical reports by name or by number (about half of them "
-        "duplicates), registrations/removals of handlers drawn from a small pool of (callback,state,ms) triples (so exact "
-        "duplicates, shared callbacks and re-registrations are frequent) through all public entry points, is_active/"
-        "is_inactive(ms) queries, gaps of 0..8 grid steps (hold times 125..1000 ms, so changes, registrations and "
-        "removals land before, exactly at and after deadlines) plus occasional gaps of minutes; in 40% of the cases "
-        "callbacks themselves register/remove handlers.  non-trivial = at least one real change and at least one "
-        "handler/event invocation; distinct by case hash")
+RULE = ("three streams over six switches (NO, NC, NO with timed activation/deactivation events, NC starting active, NO with "
+        "ignore_window_ms=250, NC with ignore_window_ms=375) of one real machine on the virtual clock, each case "
+        "projected on every switch.  timeline: 1/8 s grid; raw/logical reports by name or by number (about half "
+        "duplicates), registrations/removals from a small pool of (callback,state,ms) triples through all public "
+        "entry points, is_active/is_inactive/is_state(ms), wait_for_switch futures (state 0/1/2, only_on_change, ms), "
+        "mute/unmute in 40% of the cases, re-entrant callbacks in 40%, gaps of 0..9 grid steps (hold times 125..1000 "
+        "ms: before, exactly at and after deadlines) plus gaps of minutes.  boundary: the same on the grid with the "
+        "scheduler's choice at coincidences varied: operations delivered from inside the loop by a call_at queued "
+        "ahead of the timers (exactly at a deadline / window end the operation then runs BEFORE the due wake-up / "
+        "window timer; external delivery gives the other order) and by a late loop (clock jumps to the operation, "
+        "everything that became due meanwhile, on any switch, runs after it); 60% start with a change at/after the "
+        "end of an open ignore window, 28% with an operation at/after a pending hold deadline.  generic: integer "
+        "microseconds, arbitrary sub-millisecond instants, 60% of the operations within +-0.06..0.6 ms of a pending "
+        "deadline / window end (never closer than 50 us; cases where an operation lands within 20 us of a timer are "
+        "dropped and counted), hold times 1..1000 ms, late loop in a quarter of them.  The order and the times in "
+        "which operations and timers actually ran, and which due timers an operation overtook, are observed and given "
+        "to the model.  non-trivial = at least one real change and one handler/event invocation; distinct by hash")
 TRUSTED_BASE = [
     "Coq 8.16.1 kernel (coqc), vm_compute for evaluating the model in the correspondence run; no native_compute",
     "axioms: none (every Print Assumptions is 'Closed under the global context')",
     "hand-written model coq/C03/Model.v (one switch: NC inversion, registries with entry identity, deadline table, "
-    "wake-up handles, catch-up, removal, scripted re-entrant callbacks) tied to the working tree by correspondence: "
+    "wake-up handles, catch-up, removal, scripted re-entrant callbacks, mute, ignore window, the loop with hold-back "
+    "thresholds for overtaken timers; integer microseconds) tied to the working tree by correspondence: "
     "harness/props/c03.py drives SwitchController.process_switch/process_switch_by_num/add_switch_handler*/"
-    "remove_switch_handler*/is_active of a real machine (harness/rig.py) and the model on the same timelines and "
-    "compares callbacks with virtual timestamps, posted events, query answers, final state/hw_state/last_change and "
-    "the pending wake-up handles found in the loop's timer heap",
-    "mpf/tests/loop.py TimeTravelLoop + asyncio (timer order), functools.partial identity, Python float arithmetic on "
-    "the 1/8 s grid (exact)",
+    "remove_switch_handler*/is_active/is_state/wait_for_switch of a real machine (harness/rig.py) and the model on the "
+    "same timelines and compares callbacks with virtual timestamps, posted events, query answers, resolution times "
+    "of wait_for_switch futures, final state/hw_state/last_change, the pending wake-up and window-end handles found "
+    "in the loop's timer heap/ready queue and the recorded wake-up",
+    "mpf/tests/loop.py TimeTravelLoop + asyncio (timer order; a late loop is produced by set_time + dropping the "
+    "passed entries of TimeTravelLoop's jump list so that its clock stays monotonic), functools.partial identity, "
+    "Python float arithmetic (exact on the 1/8 s grid; errors < 1e-9 s elsewhere, operands of every comparison "
+    ">= 50 us apart)",
+    "wait_for_switch is given to the model as its definition: query (only_on_change=False) + registration of a "
+    "handler whose script removes it; the handler's invocation is observed through the future",
     "the direct oracle (trace acceptor written from the property text) in harness/props/c03.py",
 ]
 ASSUMPTIONS = [
@@ -31,8 +44,14 @@ ASSUMPTIONS = [
     "callback is outside the model), no timestamps passed by the platform; a timed handler registered while the "
     "switch is muted is entered by the catch-up rule like on an unmuted switch (what the code does; the oracle "
     "accepts exactly that)",
-    "all instants and hold times are multiples of 125 ms (float arithmetic exact); hold times >= 0",
-    "the loop runs a wake-up no later than any external operation with the same or a later timestamp",
+    "when an operation is delivered while timers are already due (same instant, or a late loop) the loop's order "
+    "of processing is taken as the order of events: a change/removal processed first cancels a hold whose deadline "
+    "has just passed, and a timer callback's time is the time the loop ran it (oracle and model agree on this "
+    "reading; with a punctual loop a hold fires exactly at change + ms)",
+    "hold times are whole milliseconds >= 0; is_state/is_active(ms) has millisecond resolution (rounded elapsed "
+    "time): the oracle accepts either answer within 0.51 ms of the threshold, queries at x.5 ms elapsed are not asked",
+    "the loop runs a due wake-up before any external operation with a later timestamp unless the case says the loop "
+    "is late",
 ]
 
 GRID = 125000          # us per grid step (1/8 s)
@@ -92,13 +111,179 @@ def gen(rng, tier, i):
             ops.append([t, sw, "rep", rng.randrange(2), rng.randrange(2), rng.randrange(2)])
         elif r < 0.70:
             ops.append([t, sw, "add"] + rng.choice(pool) + [rng.randrange(3)])
-        elif r < 0.88:
+        elif r < 0.86:
             ops.append([t, sw, "rem"] + rng.choice(pool) + [rng.randrange(4)])
+        elif r < 0.89:
+            ops.append([t, sw, "wait", rng.randrange(3), rng.randrange(2), rng.choice(MS)])
         else:
             ops.append([t, sw, "q", rng.randrange(2), rng.choice(MS + [2000]), rng.randrange(2)])
         t += rng.choice([0, 0, 1, 1, 1, 2, 2, 3, 4, 4, 5, 8, 9]) if rng.random() < 0.96 else rng.choice([80, 2400, 8000])
     return {"init": [rng.randrange(2) for _ in range(NSW)], "acts": acts, "ops": ops,
             "end": t + rng.choice([0, 1, 3, 8, 12])}
+
+
+WIN_STEPS = {4: 2, 5: 3}       # ignore windows of s4/s5 in grid steps
+
+
+def gen_boundary(rng, tier, i):
+    """grid stream, scheduler choices at coincidences: operations delivered from inside the loop at exactly a
+    deadline / window end (queued ahead of the timers: "@s"), or by a loop that is late ("@l": the clock jumps to
+    the instant of the operation and everything that became due meanwhile runs after it)"""
+    case = gen(rng, tier, i)
+    ops = case["ops"]
+    pre = []
+    t = 0
+    if rng.random() < 0.6:
+        # a change opens the ignore window; the switch changes back exactly at / just after the window end
+        sw = rng.choice([4, 5])
+        w = WIN_STEPS[sw]
+        v = 1 - case["init"][sw]
+        t = rng.choice([0, 1])
+        pre.append([t, sw, "rep", 1, v, rng.randrange(2)])
+        if rng.random() < 0.3:
+            pre.append([t + rng.randrange(1, w + 1), sw, "rep" + rng.choice(["", "@s"]), 1, 1 - v, 0])
+            if rng.random() < 0.5:
+                pre.append([t + w, sw, "rep" + rng.choice(["@s", "@l", ""]), 1, v, 0])
+        else:
+            d = rng.choice([0, 0, 0, 1, 2])
+            pre.append([t + w + d, sw, "rep" + (rng.choice(["@s", "@l", ""]) if d == 0 else "@l"), 1, 1 - v, 0])
+        t = pre[-1][0] + rng.choice([0, 1, 2, 3])
+    elif rng.random() < 0.7:
+        # a hold is pending; something happens exactly at / just after its deadline, ahead of the wake-up
+        sw = rng.randrange(NSW)
+        cb, st_, msg = rng.randrange(4), rng.randrange(2), rng.choice([1, 2, 3, 4])
+        pre.append([0, sw, "add", cb, st_, msg * 125, rng.randrange(3)])
+        if rng.random() < 0.5:
+            pre.append([0, sw, "add", rng.randrange(4), st_, rng.choice([1, 2, 3, 4, 8]) * 125, 0])
+        pre.append([0, sw, "rep", 1, 1 - st_, 0])
+        pre.append([1, sw, "rep", 1, st_, 0])
+        d = rng.choice([0, 0, 0, 1, 2, 5])
+        md = rng.choice(["@s", "@l"]) if d == 0 else "@l"
+        k = rng.random()
+        if k < 0.35:
+            pre.append([1 + msg + d, sw, "rep" + md, 1, 1 - st_, 0])
+        elif k < 0.6:
+            pre.append([1 + msg + d, sw, "rem" + md, cb, st_, msg * 125, rng.randrange(4)])
+        elif k < 0.85:
+            pre.append([1 + msg + d, sw, "add" + md, rng.randrange(4), st_, rng.choice([1, 2, 3, 4, 8]) * 125, 0])
+        else:
+            pre.append([1 + msg + d, sw, "q" + md, st_, msg * 125, rng.randrange(2)])
+        t = pre[-1][0] + rng.choice([0, 1, 2])
+    # the random tail: every operation gets a delivery mode
+    last_s = -1
+    tail = []
+    for o in ops:
+        o = list(o)
+        o[0] += t
+        m = rng.random()
+        if m < 0.25 and o[0] != last_s:
+            o[2] += "@s"
+            last_s = o[0]
+        elif m < 0.45:
+            o[2] += "@l"
+        tail.append(o)
+    # two scheduled operations at one instant have no promised order among themselves: keep one
+    seen = set(o[0] for o in pre if o[2].endswith("@s"))
+    for o in tail:
+        if o[2].endswith("@s"):
+            if o[0] in seen:
+                o[2] = o[2][:-2]
+            seen.add(o[0])
+    case["ops"] = pre + tail
+    case["end"] += t
+    return case
+
+
+NC = {1, 3, 5}
+MSG = [0, 0, 1, 2, 7, 30, 125, 250, 299, 300, 333, 500, 1000]
+DELTAS = [-600, -450, -400, -300, -200, -100, -60, 60, 100, 200, 300, 400, 450, 600]
+
+
+def gen_generic(rng, tier, i):
+    """generic stream (DESIGN.md 2.4): integer microseconds, arbitrary sub-millisecond instants; operations are
+    deliberately placed within +-0.6 ms of pending deadlines / window ends (never closer than 50 us, so no
+    comparison in the implementation has equal operands) and in between at arbitrary instants; some are
+    delivered by a late loop ("@l")"""
+    nsw = rng.choice([1, 1, 2, 2, 3])
+    sws = rng.sample(range(NSW), nsw)
+    muting = rng.random() < 0.25
+    pool = [[rng.randrange(4), rng.randrange(2), rng.choice(MSG)] for _ in range(rng.randint(2, 6))]
+    if rng.random() < 0.5:
+        c, st_, ms = rng.choice(pool)
+        pool.append([c, st_, rng.choice(MSG)])
+        pool.append([c, 1 - st_, ms])
+    acts = {}
+    if rng.random() < 0.35:
+        for cb in rng.sample(range(4), rng.randint(1, 3)):
+            acts[str(cb)] = [[rng.choice("aar")] + rng.choice(pool) for _ in range(rng.randint(1, 2))]
+    init = [rng.randrange(2) for _ in range(NSW)]
+    state = list(init)
+    lc = [None] * NSW
+    wend = [None] * NSW
+    muted = [set() for _ in range(NSW)]
+    mss = sorted(set(p[2] for p in pool if p[2]) | {125, 250})
+    win = {4: 250000, 5: 375000}
+
+    def deadlines():
+        ds = []
+        for sw in sws:
+            if lc[sw] is not None:
+                ds += [lc[sw] + m * 1000 for m in mss]
+            if wend[sw] is not None:
+                ds.append(wend[sw])
+        return ds
+
+    ops = []
+    t = rng.randrange(0, 3000)
+    n = rng.choice([4, 8, 12, 20] if tier == "quick" else [8, 16, 25, 40])
+    for _ in range(n):
+        sw = rng.choice(sws)
+        ahead = [d for d in deadlines() if d + 600 > t]
+        mode = ""
+        if ahead and rng.random() < 0.6:
+            d = rng.choice(ahead) if rng.random() < 0.5 else min(ahead)
+            cand = d + rng.choice(DELTAS)
+            if cand >= t:
+                t = cand
+                if cand > d and rng.random() < 0.4:
+                    mode = "@l"
+        else:
+            t += rng.choice([0, rng.randrange(1, 2000), rng.randrange(1, 400000), rng.randrange(1, 1200000)])
+            if rng.random() < 0.15:
+                mode = "@l"
+        for _k in range(20):        # never within 50 us of a timer
+            if all(abs(t - d) >= 50 for d in deadlines()):
+                break
+            t += 70
+        r = rng.random()
+        if muting and rng.random() < 0.12:
+            src = rng.randrange(2)
+            k = rng.choice(["mute", "mute", "unmute"])
+            ops.append([t, sw, k + mode, src])
+            (muted[sw].add if k == "mute" else muted[sw].discard)(src)
+        elif r < 0.40 or (sw >= 4 and r < 0.55):
+            logical, val = rng.randrange(2), rng.randrange(2)
+            ops.append([t, sw, "rep" + mode, logical, val, rng.randrange(2)])
+            v = val if logical or sw not in NC else 1 - val
+            if v != state[sw]:
+                state[sw] = v
+                lc[sw] = t
+                if sw in win and not muted[sw] and (wend[sw] is None or wend[sw] <= t):
+                    wend[sw] = t + win[sw]
+        elif r < 0.72:
+            ops.append([t, sw, "add" + mode] + rng.choice(pool) + [rng.randrange(3)])
+        elif r < 0.86:
+            ops.append([t, sw, "rem" + mode] + rng.choice(pool) + [rng.randrange(4)])
+        elif r < 0.90:
+            ops.append([t, sw, "wait" + mode, rng.randrange(3), rng.randrange(2), rng.choice(MSG)])
+        else:
+            ops.append([t, sw, "q" + mode, rng.randrange(2), rng.choice(MSG + [2000]), rng.randrange(2)])
+    end = t + rng.choice([137, 1500, 40123, 400000, 1500000])
+    for _k in range(20):
+        if all(abs(end - d) >= 50 for d in deadlines()):
+            break
+        end += 70
+    return {"unit": 1, "init": init, "acts": acts, "ops": ops, "end": end}
 
 
 # ------------------------------------------------------------------------------------------------
@@ -147,6 +332,14 @@ def _boot():
         st["initreg"].append(named)
         st["win"].append(int(round(sw.recycle_secs * 1e6)))
     st["invert"] = [int(sw.invert) for sw in st["sw"]]
+    st["waitid"] = None
+    st["futs"] = []
+    names = dict((sw.name, i) for i, sw in enumerate(st["sw"]))
+
+    def monitor(change):
+        if st["trace"] is not None and change.name in names:
+            st["trace"].append(["m", _rel(st), names[change.name], int(change.state)])
+    sc.add_monitor(monitor)
     return st
 
 
@@ -154,12 +347,15 @@ def _rel(st):
     return int(round((st["rig"].machine.clock.get_time() - st["t0"]) * 1e6))
 
 
-def _wake_handles(st, sw):
+def _timer_handles(st):
+    """not-cancelled TimerHandles: in the heap, and those of the running iteration already moved to the ready queue"""
     loop = st["rig"].loop
+    return [h for h in list(loop._scheduled) + list(loop._ready) if not h._cancelled and hasattr(h, "when")]
+
+
+def _wake_handles(st, sw):
     out = []
-    for h in list(loop._scheduled):
-        if h._cancelled:
-            continue
+    for h in _timer_handles(st):
         cb = h._callback
         if getattr(getattr(cb, "func", None), "__name__", "") == "_process_active_timed_switches" and cb.args \
                 and cb.args[0] is sw:
@@ -169,13 +365,38 @@ def _wake_handles(st, sw):
 
 def _recycle_handles(st, sw):
     out = []
-    for h in list(st["rig"].loop._scheduled):
-        if h._cancelled:
-            continue
+    for h in _timer_handles(st):
         f = getattr(h._callback, "func", None)
         if getattr(f, "__name__", "") == "_recycle_passed" and getattr(f, "__self__", None) is sw:
             out.append(h)
     return out
+
+
+def _us(st, t):
+    return int(round((t - st["t0"]) * 1e6))
+
+
+def _held(st, sw):
+    """deadlines (us) of the wake-up / window-end timer of sw that are due but have not run yet (None: none)"""
+    now = st["rig"].now()
+    w = [h.when() for h in _wake_handles(st, sw) if h.when() <= now]
+    r = [h.when() for h in _recycle_handles(st, sw) if h.when() <= now]
+    return (_us(st, min(w)) if w else None), (_us(st, min(r)) if r else None)
+
+
+def _jump(st, target):
+    """the loop was busy: the clock is at `target` and nothing that became due meanwhile has run yet"""
+    loop = st["rig"].loop
+    loop.set_time(target)
+    tm = loop._timers
+    while tm._timers_heap and tm._timers_heap[0] <= target:     # keep TimeTravelLoop's clock monotonic
+        tm.pop_closest()
+
+
+def _near(st):
+    """generic stream only: a timer of a test switch within 20 us of the clock (float order would decide)"""
+    now = st["rig"].now()
+    return any(abs(h.when() - now) < 2e-5 for sw in st["sw"] for h in _wake_handles(st, sw) + _recycle_handles(st, sw))
 
 
 def _reset(st, case):
@@ -225,12 +446,25 @@ def run_impl(case):
         raise
 
 
+def _mode(o):
+    return o[2].partition("@")
+
+
+def _tsec(st, case, t):
+    u = case.get("unit", GRID)
+    return st["t0"] + (t / 8.0 if u == GRID else t * u / 1e6)
+
+
 def _run(st, case):
     rig, sc = st["rig"], st["sc"]
     _reset(st, case)
     trace = []
     st["trace"] = trace
     fns = {}
+    generic = case.get("unit", GRID) != GRID
+    flags = {"near": False}
+    ran = set()
+    ev = rig.machine.events
 
     def do_add(swi, cb, s_, ms, via):
         sw = st["sw"][swi]
@@ -269,43 +503,93 @@ def _run(st, case):
             fns[(swi, cb)] = f
         return fns[(swi, cb)]
 
-    crashed = None
-    try:
-        for idx, o in enumerate(case["ops"]):
-            t, swi, kind = o[0], o[1], o[2]
-            target = st["t0"] + t / 8.0
-            if target > rig.now():
-                rig.advance(target - rig.now())
-            _settle(st)
-            trace.append(["op", idx])
-            sw = st["sw"][swi]
-            if kind == "rep":
-                logical, val, bynum = o[3], o[4], o[5]
-                if bynum:
-                    sc.process_switch_by_num(sw.hw_switch.number, val, sw.platform, logical=bool(logical))
-                else:
-                    sc.process_switch("s%d" % swi, val, logical=bool(logical))
-            elif kind == "add":
-                do_add(swi, o[3], o[4], o[5], o[6])
-            elif kind == "rem":
-                do_rem(swi, o[3], o[4], o[5], o[6])
-            elif kind == "q":
-                s_, ms, how = o[3], o[4], o[5]
+    def do_op(idx, o):
+        swi, kind = o[1], _mode(o)[0]
+        sw = st["sw"][swi]
+        holds = [_held(st, x) for x in st["sw"]]     # the loop is shared: what this operation overtook, per switch
+        if generic and _near(st):
+            flags["near"] = True
+        trace.append(["op", idx, _rel(st), [h[0] for h in holds], [h[1] for h in holds]])
+        ran.add(idx)
+        if kind == "rep":
+            logical, val, bynum = o[3], o[4], o[5]
+            if bynum:
+                sc.process_switch_by_num(sw.hw_switch.number, val, sw.platform, logical=bool(logical))
+            else:
+                sc.process_switch("s%d" % swi, val, logical=bool(logical))
+        elif kind == "add":
+            do_add(swi, o[3], o[4], o[5], o[6])
+        elif kind == "rem":
+            do_rem(swi, o[3], o[4], o[5], o[6])
+        elif kind == "q":
+            s_, ms, how = o[3], o[4], o[5]
+            el = _us(st, rig.now()) - _us(st, sw.last_change)
+            if ms and generic and 490 <= el % 1000 <= 510:
+                trace.append(["q", _rel(st), swi, -1])      # x.5 ms elapsed: the float decides the rounding; not asked
+            else:
                 if how == 0:
                     b = sc.is_active(sw, ms) if s_ else sc.is_inactive(sw, ms)
                 else:
                     b = sc.is_state(sw, s_, ms)
                 trace.append(["q", _rel(st), swi, int(bool(b))])
-            elif kind == "mute":
-                sw.mute(["c03_src", "ball_search"][o[3]])
-            elif kind == "unmute":
-                sw.unmute(["c03_src", "ball_search"][o[3]])
-            _settle(st)
-        target = st["t0"] + case["end"] / 8.0
+        elif kind == "mute":
+            sw.mute(["c03_src", "ball_search"][o[3]])
+        elif kind == "unmute":
+            sw.unmute(["c03_src", "ball_search"][o[3]])
+        elif kind == "wait":
+            # wait_for_switch(state 0/1/2, only_on_change, ms): a future; its handler is callback number 100+idx
+            wid = 100 + idx
+            fut = sc.wait_for_switch(sw, state=o[3], only_on_change=bool(o[4]), ms=o[5])
+            trace.append(["wq", _rel(st), swi, wid, int(fut.done())])
+
+            def done(f, swi=swi, wid=wid, ms=o[5]):
+                if flags.get("closed") or f.cancelled():
+                    return
+                res = f.result()
+                trace.append(["w", _rel(st), swi, wid,
+                              int(res.get("switch_name") == "s%d" % swi and res.get("ms") == ms)])
+            fut.add_done_callback(done)
+            st["futs"].append(fut)
+
+    def advance_to(target):
         if target > rig.now():
             rig.advance(target - rig.now())
+            if generic and rig.now() != target and abs(rig.now() - target) < 1e-7:
+                rig.loop.set_time(target)
         _settle(st)
-        trace.append(["end"])
+
+    crashed = None
+    st["futs"] = []
+    sched = []
+    try:
+        # operations delivered from inside the loop (a platform callback due at that instant): queued before
+        # everything the case itself schedules, so at a coincidence they usually run ahead of the timers
+        for idx, o in enumerate(case["ops"]):
+            if _mode(o)[2] == "s":
+                def wrapper(idx=idx, o=o):
+                    ev.process_event_queue()        # what earlier callbacks of this iteration posted
+                    do_op(idx, o)
+                    ev.process_event_queue()
+                sched.append(rig.loop.call_at(_tsec(st, case, o[0]), wrapper))
+        for idx, o in enumerate(case["ops"]):
+            mode = _mode(o)[2]
+            target = _tsec(st, case, o[0])
+            if mode == "s":
+                if idx not in ran:
+                    advance_to(target)
+                if idx not in ran:
+                    raise RuntimeError("scheduled operation %d did not run" % idx)
+                _settle(st)
+                continue
+            if mode == "l":
+                if target > rig.now():
+                    _jump(st, target)
+            else:
+                advance_to(target)
+            do_op(idx, o)
+            _settle(st)
+        advance_to(_tsec(st, case, case["end"]))
+        trace.append(["end", _rel(st)])
     except Exception as e:      # an exception in a loop callback stops the test loop: the machine is dead
         crashed = "%s: %s" % (type(e).__name__, e)
         exc = rig.exception()
@@ -313,8 +597,11 @@ def _run(st, case):
             crashed = "%s: %s" % (type(exc["exception"]).__name__, exc["exception"])
         trace.append(["crash", _rel(st), crashed[:200]])
     st["trace"] = None
+    flags["closed"] = True
+    for h in sched:
+        h.cancel()
     out = {"trace": trace, "final": [], "wakes": [], "cur": [], "rc": [], "muted": [], "win": st["win"],
-           "initreg": st["initreg"], "invert": st["invert"],
+           "initreg": st["initreg"], "invert": st["invert"], "near": flags["near"], "waitreg": [],
            "lc0": int(round((-100000 - st["t0"]) * 1e6))}
     for sw in st["sw"]:
         out["final"].append([int(sw.state), int(sw.hw_state), int(round((sw.last_change - st["t0"]) * 1e6))])
@@ -323,6 +610,22 @@ def _run(st, case):
         out["cur"].append([] if rec is None else [int(round((rec[1] - st["t0"]) * 1e6))])
         out["rc"].append(sorted(int(round((h.when() - st["t0"]) * 1e6)) for h in _recycle_handles(st, sw)))
         out["muted"].append(int(sw.is_muted))
+        # wait handlers still registered at the end (a resolved future must have removed its handler)
+        left = 0
+        for l in sc.registered_switches[sw]:
+            for e in l:
+                if getattr(getattr(e.callback, "func", None), "__name__", "") == "_wait_handler":
+                    left += 1
+        out["waitreg"].append(left)
+    if not crashed:
+        for f in st["futs"]:
+            if not f.done():
+                f.cancel()
+        st["trace"] = []
+        try:
+            _settle(st)         # the done callbacks remove the handlers
+        finally:
+            st["trace"] = None
     if crashed:
         try:
             rig.stop()
@@ -339,7 +642,7 @@ def _act(a):
 
 
 def _op(o):
-    k = o[2]
+    k = _mode(o)[0]
     if k == "rep":
         return "(OReport %s %s)" % (blit(o[3]), blit(o[4]))
     if k == "add":
@@ -353,23 +656,77 @@ def _op(o):
     return "(OQuery %s %s)" % (blit(o[3]), zlit(o[4]))
 
 
+def _oplist(case, out):
+    """operations in the order and at the times the implementation ran them: [idx, t_us, hold_w, hold_r]"""
+    return [e[1:] for e in out["trace"] if e[0] == "op"]
+
+
 def coq_case(case, out):
+    if out.get("near"):
+        return None         # generic stream: an operation landed within 20 us of a timer (counted, see RULE)
+    if any(e[0] == "crash" and "runaway: more than 3000" in e[2] for e in out["trace"]):
+        return None         # registrations doubling at every change: cut off by the harness after 3000 trace entries
     ins, exps = [], []
-    tab = coqlist("(%s, %s)" % (zlit(int(cb)), coqlist(_act(a) for a in l)) for cb, l in sorted(case["acts"].items()))
+    tr = out["trace"]
+    acts = dict(case["acts"])
+    ran = _oplist(case, out)
+    wq = dict((e[3], e[4]) for e in tr if e[0] == "wq")
+    qans, cur_idx = {}, None
+    for e in tr:
+        if e[0] == "op":
+            cur_idx = e[1]
+        elif e[0] == "q":
+            qans[cur_idx] = e[3]
+    # wait_for_switch = query (only_on_change=False) + registration of a handler that removes itself when invoked
+    logical = list(case["init"])
+    mops = [[] for _ in range(NSW)]
+    for idx, t, hws, hrs in ran:
+        o = case["ops"][idx]
+        i, kind = o[1], _mode(o)[0]
+        hw_, hr_ = hws[i], hrs[i]
+        hold = "(%s, %s)" % (zlit(t + 1 if hw_ is None else hw_), zlit(t + 1 if hr_ is None else hr_))
+        for j in range(NSW):        # the other switches see the same late loop
+            if j != i and (hws[j] is not None or hrs[j] is not None):
+                mops[j].append("(%s, (%s, %s), ONop)" % (zlit(t), zlit(t + 1 if hws[j] is None else hws[j]),
+                                                         zlit(t + 1 if hrs[j] is None else hrs[j])))
+        if kind == "rep":
+            logical[i] = o[4] if o[3] else o[4] ^ out["invert"][i]
+        if kind == "wait":
+            wid = 100 + idx
+            st2, ooc, ms = o[3], o[4], o[5]
+            hs = (1 - logical[i]) if st2 == 2 else st2
+            if not ooc and st2 != 2:
+                mops[i].append("(%s, %s, (OQuery %s %s))" % (zlit(t), hold, blit(hs), zlit(ms)))
+                hold = "(%s, %s)" % (zlit(t + 1), zlit(t + 1))
+            if not wq.get(wid):
+                mops[i].append("(%s, %s, (OAdd %s %s %s))" % (zlit(t), hold, zlit(wid), blit(hs), zlit(ms)))
+                acts[str(wid)] = [["r", wid, hs, ms]]
+            continue
+        if kind == "q" and qans.get(idx) == -1:
+            mops[i].append("(%s, %s, ONop)" % (zlit(t), hold))
+            continue
+        mops[i].append("(%s, %s, %s)" % (zlit(t), hold, _op(o)))
+    tab = coqlist("(%s, %s)" % (zlit(int(cb)), coqlist(_act(a) for a in l)) for cb, l in sorted(acts.items()))
+    u = case.get("unit", GRID)
     for i in range(NSW):
-        ops = coqlist("(%s, %s)" % (zlit(o[0] * GRID), _op(o)) for o in case["ops"] if o[1] == i)
         reg = out["initreg"][i]
         ins.append("((%s, %s, %s, %s, %s), (%s, %s), %s, %s, (%s, %s))" % (
             blit(out["invert"][i]), blit(case["init"][i]), blit(case["init"][i] ^ out["invert"][i]), zlit(out["lc0"]),
             zlit(out["win"][i]),
             coqlist("(%s,%s)" % (zlit(c), zlit(m)) for c, m in reg[0]),
             coqlist("(%s,%s)" % (zlit(c), zlit(m)) for c, m in reg[1]),
-            tab, ops, zlit(case["end"] * GRID), zlit(FUEL)))
+            tab, coqlist(mops[i]), zlit(case["end"] * u), zlit(FUEL)))
         rows = []
-        tr = out["trace"]
         rows += [[0, e[1], e[3]] for e in tr if e[0] == "f" and e[2] == i]
+        rows.append([4] + sorted(e[1] * 1000 + e[3] for e in tr if e[0] == "w" and e[2] == i and not wq.get(e[3])))
         rows += [[1, e[1], e[3]] for e in tr if e[0] == "e" and e[2] == i]
-        rows += [[2, e[1], e[3]] for e in tr if e[0] == "q" and e[2] == i]
+        for e in tr:
+            if e[0] == "q" and e[2] == i and e[3] >= 0:
+                rows.append([2, e[1], e[3]])
+            elif e[0] == "wq" and e[2] == i:        # wait_for_switch(only_on_change=False) = query + registration
+                o = case["ops"][e[3] - 100]
+                if not o[4] and o[3] != 2:
+                    rows.append([2, e[1], e[4]])
         rows += [[3, e[1]] for e in tr if e[0] == "crash"]
         rows.append([9] + out["final"][i])
         rows.append([8] + out["wakes"][i])
@@ -390,26 +747,38 @@ class Spec:
         self.inv = inv
         self.win = win              # ignore window (us); 0 = none
         self.open = None            # [end_us, state the window was opened for]
+        self.resume = None          # the loop was late: the window-end timer cannot run before this instant
+        self.heldr = None           # the window-end timer is due but was observed not to have run yet
+        self.has_rem = False        # some callback script removes handlers
+        self.amb = False            # see overdue()
         self.muted = set()
         self.state = state
         self.raw = state ^ inv
-        self.lc = None              # grid time (us) of the last real change; None = long ago
+        self.lc = None              # time (us) of the last real change; None = long ago
         self.nid = 0
         self.regs = []              # live registrations: [id, cb, st, ms]
         self.now_due = []           # untimed obligations of the change being dispatched: [id, cb]
         self.pend = []              # timed obligations: [id, cb, due_us]
         self.removed = set()        # callbacks of registrations removed and not re-added since
+        self.changes = []           # [t, state] of every real change (what a monitor must have seen)
+        self.waits = {}             # wait id -> time its future must resolve (None: not yet known)
         for s_ in (0, 1):
             for cb, ms in initreg[s_]:
                 if cb not in (1010, 1011):      # the window logic below stands for _post_events_with_recycle
                     self.add(None, cb, s_, ms)
 
-    def tick(self, t):
-        """the ignore window ends at or before t: one catch-up post iff the state differs from the posted one"""
+    def tick(self, t, hr=None):
+        """the ignore window ends at or before t: one catch-up post iff the state differs from the posted one.
+        hr: the window-end timer is due but the loop has not run it yet (the operation at t overtook it)"""
         if self.open is not None and self.open[0] <= t:
+            if hr is not None and self.open[0] >= hr:
+                self.resume = t
+                return
             if self.state != self.open[1]:
-                self.pend.append([-1, 1000 + self.state, self.open[0]])
+                due = self.open[0] if self.resume is None else max(self.open[0], self.resume)
+                self.pend.append([-1, 1000 + self.state, due])
             self.open = None
+            self.resume = None
 
     def add(self, t, cb, s_, ms):
         rid = self.nid
@@ -435,27 +804,47 @@ class Spec:
             return
         self.state = v
         self.lc = t
-        self.pend = []              # every real change ends the holds of the previous state, muted or not
+        self.changes.append([t, v])
+        # every real change ends the holds of the previous state, muted or not (the catch-up post of a window
+        # that is already over stays owed, and so does a wait_for_switch future whose handler was due before
+        # this change and whose resolution is only observed an iteration later)
+        self.pend = [x for x in self.pend if x[0] == -1 or len(x) > 3]
         self.now_due = []
         if self.muted:              # a muted switch updates its state but triggers nothing
             return
-        self.pend = [[r[0], r[1], t + r[3] * 1000] for r in self.regs if r[2] == v and r[3] > 0]
+        self.pend += [[r[0], r[1], t + r[3] * 1000] for r in self.regs if r[2] == v and r[3] > 0]
         self.now_due = [[r[0], r[1]] for r in self.regs if r[2] == v and r[3] == 0]
         if self.win and self.open is None:
             self.open = [t + self.win, v]
             self.now_due.append([-1, 1000 + v])
 
-    def fired(self, t, cb):
-        """an invocation of callback cb observed at time t: must discharge an obligation"""
-        self.tick(t)
+    def _match(self, t, cb):
         if self.lc == t:
             for x in self.now_due:
                 if x[1] == cb:
                     self.now_due.remove(x)
-                    return None
+                    return True
         for x in self.pend:
             if x[1] == cb and x[2] == t:
                 self.pend.remove(x)
+                return True
+        return False
+
+    def fired(self, t, cb):
+        """an invocation of callback cb observed at time t: must discharge an obligation"""
+        # a window that ends exactly now: whether its timer has run already is only known at the next operation
+        # (observed) or when a post needs it
+        hold = self.heldr
+        if hold is None and self.open is not None and self.open[0] == t:
+            hold = t
+        self.tick(t, hold)
+        if self._match(t, cb):
+            return None
+        if self.open is not None and self.open[0] <= t and cb in (1000, 1001):
+            # the window-end timer has run now: the window is over
+            self.heldr = None
+            self.tick(t)
+            if self._match(t, cb):
                 return None
         if cb in self.removed:
             return "fired-after-removal"
@@ -463,14 +852,39 @@ class Spec:
             return "timed-wrong-time"
         return "unexpected-invocation"
 
-    def overdue(self, t, strict):
-        """obligations that should have been discharged before an operation at time t"""
+    def overdue(self, t, hw=None, hr=None, final=False):
+        """obligations that should have been discharged before an operation at time t.  hw/hr: deadline of the
+        wake-up / window-end timer that is due but which the loop has not run yet (it runs right after the
+        operation, at t): what hangs on them is owed at t instead.  The handler of a wait_for_switch future
+        (callbacks 100..999) is observed through the future's done callback, which asyncio runs one iteration
+        later: at the same instant it may still be on its way"""
         res = []
-        self.tick(t)
-        if self.now_due:
-            res.append("ignore-window-post-missed" if all(x[0] == -1 for x in self.now_due) else "untimed-missed")
-            self.now_due = []
-        late = [x for x in self.pend if (x[2] < t if strict else x[2] <= t)]
+        self.heldr = hr
+        self.tick(t, hr)
+        on_way = [x for x in self.now_due if 100 <= x[1] < 1000 and self.lc == t and not final]
+        due = [x for x in self.now_due if x not in on_way]
+        if due:
+            res.append("ignore-window-post-missed" if all(x[0] == -1 for x in due) else "untimed-missed")
+        self.now_due = []
+        self.pend += [[x[0], x[1], t, True] for x in on_way]       # invoked; the future resolves an iteration later
+        late = []
+        moved = {}
+        for x in self.pend:
+            if x[2] <= t:
+                if x[0] >= 0 and hw is not None and x[2] >= hw and len(x) == 3:
+                    # a late wake-up serves several deadlines at one instant: when two of them belong to the same
+                    # callback and scripts remove handlers, the trace no longer tells which registration an
+                    # invocation belongs to; such a case gets no verdict from the oracle (the model still decides)
+                    if x[2] != t and self.has_rem and moved.setdefault(x[1], x[2]) != x[2]:
+                        self.amb = True
+                    x[2] = t
+                elif 100 <= x[1] < 1000 and x[2] == t and not final:
+                    if len(x) == 3:
+                        x.append(True)
+                elif x[0] == -1 and hr is not None and x[2] >= hr:
+                    x[2] = t
+                else:
+                    late.append(x)
         if late:
             res.append("ignore-window-post-missed" if all(x[0] == -1 for x in late) else "timed-missed")
             self.pend = [x for x in self.pend if x not in late]
@@ -479,38 +893,66 @@ class Spec:
 
 def oracle(case, out):
     fails = []
+    if out.get("near"):
+        return fails
 
     def fail(sig, what):
         if not any(f["sig"] == sig for f in fails):
             fails.append({"sig": sig, "what": what})
     specs = [Spec(out["invert"][i], case["init"][i], out["initreg"][i], out["win"][i]) for i in range(NSW)]
-    acts = case["acts"]
+    acts = dict(case["acts"])
+    for sp in specs:
+        sp.has_rem = any(a[0] == "r" for l in acts.values() for a in l)
     ops = case["ops"]
     pending_q = None
+    mons = [[] for _ in range(NSW)]
+    wres = {}
+    tol_q = case.get("unit", GRID) != GRID
     for e in out["trace"]:
         k = e[0]
         if k == "op":
             o = ops[e[1]]
-            t = o[0] * GRID
+            t = e[2]
+            kind = _mode(o)[0]
             for i, sp in enumerate(specs):
-                for sig in sp.overdue(t, False):
+                for sig in sp.overdue(t, e[3][i], e[4][i]):
                     fail(sig, "switch s%d: a handler/event that had to be invoked before t=%d us was not" % (i, t))
             sp = specs[o[1]]
             if pending_q is not None:
                 fail("query-missing", "no answer recorded for a query")
-            if o[2] == "rep":
+            if kind == "rep":
                 sp.report(t, o[3], o[4])
-            elif o[2] == "add":
+            elif kind == "add":
                 sp.add(t, o[3], o[4], o[5])
-            elif o[2] == "rem":
+            elif kind == "rem":
                 sp.rem(o[3], o[4], o[5])
-            elif o[2] == "mute":
+            elif kind == "mute":
                 sp.muted.add(o[3])
-            elif o[2] == "unmute":
+            elif kind == "unmute":
                 sp.muted.discard(o[3])
+            elif kind == "wait":
+                # the future resolves at once (only_on_change=False and already held), or exactly once when the
+                # switch has been in the state for ms, and its handler is gone afterwards
+                wid = 100 + e[1]
+                st2, ooc, ms = o[3], o[4], o[5]
+                hs = (1 - sp.state) if st2 == 2 else st2
+                held = (t - sp.lc) if sp.lc is not None else 10 ** 15
+                imm = (not ooc) and st2 != 2 and sp.state == hs and (ms == 0 or held >= ms * 1000)
+                amb = tol_q and ms and abs(held - ms * 1000) <= 510
+                wres[wid] = {"imm": imm, "amb": amb, "hs": hs, "ms": ms, "sw": o[1], "t": t}
             else:
                 held = (t - sp.lc) if sp.lc is not None else 10 ** 15
-                pending_q = [o[1], int(sp.state == o[3] and (o[4] == 0 or held >= o[4] * 1000))]
+                amb = tol_q and o[4] and abs(held - o[4] * 1000) <= 510       # API resolution: whole milliseconds
+                pending_q = [o[1], int(sp.state == o[3] and (o[4] == 0 or held >= o[4] * 1000)), amb]
+        elif k == "wq":
+            w = wres.get(e[3])
+            if w is not None:
+                if bool(e[4]) != w["imm"] and not w["amb"]:
+                    fail("wait-immediate-wrong", "switch s%d: wait_for_switch(only_on_change=False) %s at t=%d us"
+                         % (e[2], "resolved at once" if e[4] else "did not resolve at once", e[1]))
+                w["imm"] = bool(e[4])
+                if not e[4]:
+                    specs[w["sw"]].add(w["t"], e[3], w["hs"], w["ms"])
         elif k in ("f", "e"):
             t, i, cb = e[1], e[2], e[3]
             sp = specs[i]
@@ -524,27 +966,56 @@ def oracle(case, out):
                         sp.add(t, a[1], a[2], a[3])
                     else:
                         sp.rem(a[1], a[2], a[3])
+        elif k == "w":
+            w = wres.get(e[3])
+            if w is None or w.get("done") or not e[4]:
+                fail("wait-future", "switch s%d: wait_for_switch future %d resolved at t=%d us: twice or with the "
+                                    "wrong result" % (e[2], e[3], e[1]))
+            if w is not None:
+                w["done"] = True
+                if not w["imm"]:
+                    # the future is resolved by its handler: the same obligations as for any handler, and the
+                    # handler is removed by the future's done callback
+                    sp = specs[e[2]]
+                    sig = sp.fired(e[1], e[3])
+                    if sig:
+                        fail(sig, "switch s%d: wait_for_switch future %d resolved at t=%d us without a matching "
+                                  "obligation (state=%d, last change=%s)" % (e[2], e[3], e[1], sp.state, sp.lc))
+                    sp.rem(e[3], w["hs"], w["ms"])
+        elif k == "m":
+            mons[e[2]].append([e[1], e[3]])
         elif k == "q":
             if pending_q is None or pending_q[0] != e[2]:
                 fail("query-missing", "unexpected query record")
-            elif pending_q[1] != e[3]:
+            elif e[3] >= 0 and pending_q[1] != e[3] and not pending_q[2]:
                 fail("query-wrong", "switch s%d: is_active/is_inactive/is_state answered %d, expected %d at t=%d us"
                      % (e[2], e[3], pending_q[1], e[1]))
             pending_q = None
         elif k == "crash":
+            if any(sp.amb for sp in specs):
+                return []
+            if "runaway: more than 3000" in e[2] and not fails:
+                return fails        # scripts that double their registrations at every change: cut off, nothing wrong so far
             fail("crash", "the switch controller raised: %s" % e[2])
             return fails
         elif k == "end":
-            t = case["end"] * GRID
+            t = e[1]
             for i, sp in enumerate(specs):
-                for sig in sp.overdue(t, False):
+                for sig in sp.overdue(t, final=True):
                     fail(sig, "switch s%d: a handler/event due by the end (t=%d us) was not invoked" % (i, t))
+    if any(sp.amb for sp in specs):
+        return []
+    for wid, w in wres.items():
+        if w["imm"] and not w.get("done"):
+            fail("wait-future", "wait_for_switch future %d: condition met but the future is not resolved" % wid)
     for i, sp in enumerate(specs):
         st_, hw_, lc_ = out["final"][i]
         if st_ != sp.state or hw_ != sp.raw:
             fail("state-mismatch", "switch s%d: state/hw_state %d/%d, last report says %d/%d" % (i, st_, hw_, sp.state, sp.raw))
         if sp.lc is not None and lc_ != sp.lc:
             fail("last-change-wrong", "switch s%d: last_change %d us, last real change at %d us" % (i, lc_, sp.lc))
+        if mons[i] != sp.changes:
+            fail("monitor-mismatch", "switch s%d: monitors saw %r, real changes were %r" % (i, mons[i][:6], sp.changes[:6]))
         w = out["wakes"][i]
         if len(w) > 1 or w != out["cur"][i]:
             fail("orphan-wakeup", "switch s%d: wake-ups in the loop %r, recorded %r" % (i, w, out["cur"][i]))
@@ -556,6 +1027,10 @@ def oracle(case, out):
         hp = [x for x in sp.pend if x[0] >= 0]
         if hp and (not w or w[0] > min(x[2] for x in hp)):
             fail("wakeup-missing", "switch s%d: handlers pending for %r but wake-ups %r" % (i, sorted(x[2] for x in hp), w))
+        nwait = sum(1 for r in sp.regs if 100 <= r[1] < 1000)
+        if out.get("waitreg") and out["waitreg"][i] != nwait:
+            fail("wait-handler-left", "switch s%d: %d wait_for_switch handlers registered at the end, %d futures open"
+                 % (i, out["waitreg"][i], nwait))
     return fails
 
 
@@ -581,6 +1056,9 @@ def shrink(case):
                     yield dict(case, ops=ops[:i] + [[o[0] - cut] + o[1:] for o in ops[i:]], end=case["end"] - cut)
     if any(case["init"]):
         yield dict(case, init=[0] * NSW)
+    for i in range(len(ops)):
+        if "@" in ops[i][2]:
+            yield dict(case, ops=ops[:i] + [ops[i][:2] + [ops[i][2].partition("@")[0]] + ops[i][3:]] + ops[i + 1:])
 
 
 def nontrivial(case, out):
@@ -591,25 +1069,38 @@ def nontrivial(case, out):
 
 def describe(case):
     n = len(case["ops"])
-    return "ops=%s reentrant=%d" % ("<=6" if n <= 6 else "<=16" if n <= 16 else ">16", 1 if case["acts"] else 0)
+    return "ops=%s reentrant=%d late=%d inloop=%d" % (
+        "<=6" if n <= 6 else "<=16" if n <= 16 else ">16", 1 if case["acts"] else 0,
+        int(any(o[2].endswith("@l") for o in case["ops"])), int(any(o[2].endswith("@s") for o in case["ops"])))
 
 
 SUITES = [
     Suite("timeline", gen, run_impl, HDR, coq_case, oracle, shrink, nontrivial,
-          {"quick": 2400, "thorough": 60000}, shard=250, describe=describe, case_timeout=20),
+          {"quick": 1100, "thorough": 30000}, shard=250, describe=describe, case_timeout=20),
+    Suite("boundary", gen_boundary, run_impl, HDR, coq_case, oracle, shrink, nontrivial,
+          {"quick": 700, "thorough": 15000}, shard=250, describe=describe, case_timeout=20),
+    Suite("generic", gen_generic, run_impl, HDR, coq_case, oracle, shrink, nontrivial,
+          {"quick": 800, "thorough": 15000}, shard=250, describe=describe, case_timeout=20),
 ]
 
-LEVEL_TEXT = ("Machine-checked proof (Coq) over an executable model of one switch of SwitchController (with the three "
-              "fixes/C03-*.patch applied), for all event sequences: logical state = last report; duplicates are no-ops; "
-              "untimed handlers once per change; a muted change invokes nothing but drops the pending holds; every pending "
-              "entry and every invocation is for the state the switch is in; ignore-window semantics "
-              "(recycle_semantics_*); exactly one wake-up handle per switch and no crash in "
-              "_process_active_timed_switches; a removed handler never fires; timed handlers fire exactly at "
-              "change+ms iff held (see Props.v for the exact statements and guards).  The model is tied to the working "
-              "tree by running both on the same generated timelines on every run, and a trace acceptor written from the "
-              "property text checks every implementation trace directly.")
+LEVEL_TEXT = ("Machine-checked proof (Coq) over an executable model of one switch of SwitchController + Switch device, "
+              "for all event sequences: logical state = last report; duplicates are no-ops; untimed handlers once per "
+              "change; a muted change invokes nothing but drops the pending holds; HISTORY LEVEL: in every reachable state "
+              "every pending timed entry sits under last_change + ms for the current state, exactly one wake-up handle "
+              "exists iff something is pending and it is at the minimum deadline (reachable_invariants, "
+              "wakeup_at_minimum_deadline), a punctual wake-up invokes only entries whose deadline is that instant "
+              "(wakeup_fires_at_deadline), the wake-up lemma (wakeup_invokes_exactly_the_due), and timed_iff_held: for "
+              "every history and every handler with a hold time the invocation times equal those of the hold automaton "
+              "(once per registration at change + ms iff held and still registered; catch-up at the original deadline "
+              "iff ahead; never after removal); ignore-window semantics per step (recycle_semantics_*); no crash in "
+              "_process_active_timed_switches; a removed handler never fires.  The model is tied to the working tree "
+              "by running both on the same generated timelines on every run (grid, boundary/late-loop and "
+              "sub-millisecond streams), and a trace acceptor written from the property text checks every "
+              "implementation trace directly (including wait_for_switch futures and monitors).")
 LEVEL_NOTE = ("Trusted: Coq kernel + vm_compute; no axioms. Hand-written model validated differentially against the real "
-              "machine on the virtual clock (grid times only); asyncio/TimeTravelLoop timer semantics modelled as "
-              "'earliest pending wake-up first, before any operation at the same or a later instant'.")
+              "machine on the virtual clock; asyncio/TimeTravelLoop timer semantics modelled as 'earliest pending timer "
+              "first, before any operation at the same or a later instant, except the timers an operation was observed "
+              "to overtake'.  The history-level ignore-window statement and a joint model of several switches are not "
+              "proved (per-step theorems, correspondence per switch with shared late-loop events, oracle).")
 TECHNIQUE = "Coq proof over hand-written executable model + differential correspondence (vm_compute) + trace-acceptor oracle"
 DESIGN_REF = "DESIGN.md section 3, C03"
